@@ -173,6 +173,18 @@ func scenarios() []scenario {
 				}
 			})
 		}},
+		{name: "real entry points: two concurrent HTTP check-ins of one session (a replayed or pipelined request), queue pre-filled | operator DispatchEvent(1 task)", viaTS: true, build: func(s *vsched.Sched, h *hist, a *agent.Agent, ts *seam.TS) {
+			h.enqueueOp(3, ts, 9)
+			s.Spawn("operator", func() { h.enqueueOp(0, ts, 1) })
+			for _, l := range []int{1, 2} {
+				l := l
+				s.Spawn(fmt.Sprintf("listener-%d", l), func() {
+					if bad := h.dequeueHTTP(l, ts); bad != "" {
+						h.bad = bad
+					}
+				})
+			}
+		}},
 	}
 }
 
